@@ -1864,7 +1864,8 @@ func c10ImportsAllResolved(c *Ctx) {
 		return found
 	}
 	n := 0
-	ast.Inspect(fr.Decl.Body, func(m ast.Node) bool {
+	// the loop may live in getModuleDepsRec or in a helper the walk callback was extracted into
+	deepInspect(p, fr, 2, func(m ast.Node, _ *types.Info) bool {
 		rs, ok := m.(*ast.RangeStmt)
 		if !ok {
 			return true
@@ -3155,4 +3156,33 @@ func notFoundGuard(info *types.Info, body *ast.BlockStmt, cond ast.Expr) bool {
 		return true
 	})
 	return found
+}
+
+// storeOnAbsentEdge: the map store lies on the edge where a comma-ok lookup of the same key in the same map said
+// "absent".
+func storeOnAbsentEdge(mu *ssa.MapUpdate) bool {
+	same := func(a, b ssa.Value) bool {
+		a, b = stripConv(a), stripConv(b)
+		if a == b {
+			return true
+		}
+		ca, ok1 := a.(*ssa.Call)
+		cb, ok2 := b.(*ssa.Call)
+		return ok1 && ok2 && ca.Call.IsInvoke() && cb.Call.IsInvoke() && ca.Call.Method == cb.Call.Method && ca.Call.Value == cb.Call.Value && len(ca.Call.Args) == 0
+	}
+	for _, ge := range guardingEdges(mu.Block()) {
+		cv, pos := condPolarity(ge.If.Cond)
+		ex, ok := cv.(*ssa.Extract)
+		if !ok || ex.Index != 1 || ge.Branch == pos {
+			continue
+		}
+		lk, ok := ex.Tuple.(*ssa.Lookup)
+		if !ok || !lk.CommaOk {
+			continue
+		}
+		if sameMapValue(lk.X, mu.Map) && same(lk.Index, mu.Key) {
+			return true
+		}
+	}
+	return false
 }
